@@ -15,12 +15,22 @@ _counts = {}
 
 def make_cases(tier, seed):
     quick = tier == "quick"
-    streams = [
+    small = [
+        ("setrange_gap", gen_str.gap_cases()),
         ("set_options", gen_str.set_option_cases()),
         ("indexes", gen_str.index_cases()),
         ("generic_keys_all_types", gen_str.generic_key_cases()),
         ("malformed", gen_str.malformed_cases(seed)),
         ("random", gen_str.random_programs(seed, 1500 if quick else 25000)),
+    ]
+    # the small streams run in both argument shapes: exact-capacity slices (hex-decoded) and the
+    # shape resp.ParseStream gives the server (harness memrun "wire" cases); the exhaustive
+    # streams alternate the shape from one program to the next
+    streams = []
+    for name, cs in small:
+        streams.append((name, cs))
+        streams.append((name + "_wire", gen_str.wired(cs)))
+    streams += [
         # bounded-exhaustive: ALL programs of length 2 and 3 over 2 keys x the command instances
         ("exhaustive_len2", list(gen_str.exhaustive_cases(2))),
         ("exhaustive_len3", list(gen_str.exhaustive_cases(3, sample=None, seed=seed))),
